@@ -259,30 +259,49 @@ def liveBad (rules : List CRule) (bound : Nat) : Nat → Pend → List (Nat × I
 /-- a no-loop rule NAME: every rule registered under the name is no-loop -/
 def nameNoLoop (rules : List NRule) (n : Nat) : Bool := rules.all (fun r => r.name != n || r.noLoop)
 
-/-- **a no-loop rule name fires at most once between resets** (`reset_fired_flags`), over a whole history of calls on one map
-engine, whatever the number of registrations of the name; and every call returns at most `maxFire` names -/
-def mhistOk (isNoLoop : Nat → Bool) (maxFire : Nat) : List Nat → List MOp → List MRes → Bool
+/-- firing a registration of name `n` may overwrite the marker of name `k` with a value the engine does NOT read as fired (the
+action of some registration of `n` carries `marks = some k` with such a value): that forgets `k`'s no-loop memory exactly like a
+`reset_fired_flags` restricted to `k` (when `k = n` the engine's own write after the action wins, see `noLoopNamesM`) -/
+def clearedBy (fv : Nat → Bool) (rules : List NRule) (n k : Nat) : Bool :=
+  rules.any (fun r => r.name == n && r.marks == some k && !fv r.mval)
+
+/-- `noLoopNames` for the map engines: walking through the returned names, a no-loop name already in `since` is a violation;
+otherwise the markers its action may have overwritten with a non-fired value leave `since`, then the name itself enters -/
+def noLoopNamesM (isNoLoop : Nat → Bool) (clr : Nat → Nat → Bool) : List Nat → List Nat → Option (List Nat)
+  | since, [] => some since
+  | since, n :: t =>
+    if isNoLoop n && since.contains n then none
+    else noLoopNamesM isNoLoop clr (setInsert n (since.filter (fun k => !clr n k))) t
+
+/-- **a no-loop rule name fires at most once between resets** (`reset_fired_flags`, or an overwrite of the name's `<name>_fired`
+fact with a value the engine does not read as fired — by the caller (`marker n v` with `fv v = false`) or by a rule's action
+(`clr`)), over a whole history of calls on one map engine, whatever the number of registrations of the name; and every call
+returns at most `maxFire` names -/
+def mhistOk (isNoLoop : Nat → Bool) (clr : Nat → Nat → Bool) (fv : Nat → Bool) (maxFire : Nat) : List Nat → List MOp → List MRes → Bool
   | _, [], [] => true
   | since, .fire :: ops, .fired names _ _ :: rs =>
     decide (names.length ≤ maxFire) &&
-    (match noLoopNames isNoLoop since names with
-     | some since' => mhistOk isNoLoop maxFire since' ops rs
+    (match noLoopNamesM isNoLoop clr since names with
+     | some since' => mhistOk isNoLoop clr fv maxFire since' ops rs
      | none => false)
-  | _, .reset :: ops, .unit :: rs => mhistOk isNoLoop maxFire [] ops rs
-  | since, .set _ _ :: ops, .unit :: rs => mhistOk isNoLoop maxFire since ops rs
-  | since, .marker _ :: ops, .unit :: rs => mhistOk isNoLoop maxFire since ops rs
+  | _, .reset :: ops, .unit :: rs => mhistOk isNoLoop clr fv maxFire [] ops rs
+  | since, .set _ _ :: ops, .unit :: rs => mhistOk isNoLoop clr fv maxFire since ops rs
+  | since, .marker n v :: ops, .unit :: rs =>
+    mhistOk isNoLoop clr fv maxFire (if fv v then since else since.filter (· != n)) ops rs
   | _, _, _ => false
 
-def mhistBad (tag : String) (isNoLoop : Nat → Bool) (maxFire : Nat) : Nat → List Nat → List MOp → List MRes → String
+def mhistBad (tag : String) (isNoLoop : Nat → Bool) (clr : Nat → Nat → Bool) (fv : Nat → Bool) (maxFire : Nat) :
+    Nat → List Nat → List MOp → List MRes → String
   | _, _, [], [] => "mhistOk"
   | i, since, .fire :: ops, .fired names _ _ :: rs =>
     if names.length > maxFire then s!"fire_all_bounded:count:{tag}@{i}" else
-    (match noLoopNames isNoLoop since names with
-     | some since' => mhistBad tag isNoLoop maxFire (i + 1) since' ops rs
+    (match noLoopNamesM isNoLoop clr since names with
+     | some since' => mhistBad tag isNoLoop clr fv maxFire (i + 1) since' ops rs
      | none => s!"no_loop_once_between_resets:{tag}@{i}")
-  | i, _, .reset :: ops, .unit :: rs => mhistBad tag isNoLoop maxFire (i + 1) [] ops rs
-  | i, since, .set _ _ :: ops, .unit :: rs => mhistBad tag isNoLoop maxFire (i + 1) since ops rs
-  | i, since, .marker _ :: ops, .unit :: rs => mhistBad tag isNoLoop maxFire (i + 1) since ops rs
+  | i, _, .reset :: ops, .unit :: rs => mhistBad tag isNoLoop clr fv maxFire (i + 1) [] ops rs
+  | i, since, .set _ _ :: ops, .unit :: rs => mhistBad tag isNoLoop clr fv maxFire (i + 1) since ops rs
+  | i, since, .marker n v :: ops, .unit :: rs =>
+    mhistBad tag isNoLoop clr fv maxFire (i + 1) (if fv v then since else since.filter (· != n)) ops rs
   | i, _, _, _ => s!"shape:{tag}@{i}"
 
 end C07
